@@ -37,6 +37,8 @@ type Frame struct {
 	dry bool
 	// constant overrides (case pruning)
 	constOverride map[ssa.Value]string
+	allowed       map[string][]string
+	whole         map[string]bool
 	tasks         map[string]*pendingTaskInfo
 	covers        map[string]coverInfo
 }
@@ -62,6 +64,7 @@ type loopInfo struct {
 	ordinal int
 	phiNew  map[*ssa.Phi]*Value
 	entrySt *State
+	mods    []string
 }
 
 func (e *Encoder) newFrame(fn *ssa.Function, depth int) *Frame {
@@ -499,6 +502,15 @@ func (f *Frame) enterLoop(b *ssa.BasicBlock, li *loopInfo) (string, *State) {
 	}
 	// havoc
 	mods := f.loopModsDry(li, pc, st)
+	li.mods = mods
+	// implicit invariant: the function's frame condition holds so far
+	if f.top && !f.dry {
+		for _, c := range mods {
+			if g := f.frameGoal(c, st); g != "" {
+				e.oblige(fmt.Sprintf("loop%d.established", li.ordinal), "frame."+c, pc, g, "function frame holds on loop entry for "+c, b.Instrs[0].Pos(), nil)
+			}
+		}
+	}
 	st = st.clone()
 	for _, c := range mods {
 		if c == "*" {
@@ -521,6 +533,13 @@ func (f *Frame) enterLoop(b *ssa.BasicBlock, li *loopInfo) (string, *State) {
 		a0 := e.comp(li.entrySt, "alloc", arrSort(sBool))
 		a1 := e.comp(st, "alloc", arrSort(sBool))
 		e.assume("true", fmt.Sprintf("(forall ((r Int)) (! (=> (select %s r) (select %s r)) :pattern ((select %s r))))", a0, a1, a1))
+	}
+	if f.top {
+		for _, c := range mods {
+			if g := f.frameGoal(c, st); g != "" {
+				e.assume(pc, g)
+			}
+		}
 	}
 	for _, cl := range invs {
 		e.assume(pc, f.evalClause(cl, st, b))
@@ -580,6 +599,13 @@ func (f *Frame) loopBackEdge(from, head *ssa.BasicBlock) {
 	}
 	for ph, v := range saved {
 		f.vals[ph] = v
+	}
+	if f.top {
+		for _, k := range li.mods {
+			if g := f.frameGoal(k, f.out[from]); g != "" {
+				e.oblige(fmt.Sprintf("loop%d.preserved", li.ordinal), "frame."+k, c, g, "function frame preserved by the loop body for "+k, head.Instrs[0].Pos(), nil)
+			}
+		}
 	}
 }
 
